@@ -19,16 +19,16 @@ S1 == [idx |-> 2, keys |-> <<"g2">>]
 SE == [idx |-> 3, keys |-> <<>>]
 SetUniverse == {S \in {SA, SB, S1, SE} : S.idx \in SetIdxs}
 
-Digests == {"d1", "d2"}
-IdOf(d) == "i1"                      \* both bodies share one message id (re-emitted message)
+Digests == {"d1", "d2"}              \* the two bodies share one message id (re-emitted message)
+AllDigests == Digests \cup {"dg", "de"}
 
 MsgUniverse ==
-    {[d |-> d, id |-> IdOf(d), gov |-> FALSE, chain |-> 2, tx |-> "t1", empty |-> FALSE] : d \in Digests}
-    \cup {[d |-> "d1", id |-> "i1", gov |-> TRUE, chain |-> 1, tx |-> "t1", empty |-> FALSE]}
-    \cup {[d |-> "d2", id |-> "i1", gov |-> FALSE, chain |-> 2, tx |-> "t1", empty |-> TRUE]}
+    {[d |-> d, id |-> "i1", gov |-> FALSE, chain |-> 2, tx |-> "t1", empty |-> FALSE] : d \in Digests}
+    \cup {[d |-> "dg", id |-> "ig", gov |-> TRUE, chain |-> 1, tx |-> "t2", empty |-> FALSE]}
+    \cup {[d |-> "de", id |-> "ie", gov |-> FALSE, chain |-> 2, tx |-> "t3", empty |-> TRUE]}
 
-InjectUniverse == {[d |-> "d1", id |-> "i1", setIdx |-> 0, chain |-> 1],
-                   [d |-> "d1", id |-> "i1", setIdx |-> 1, chain |-> 1]}
+InjectUniverse == {[d |-> "d1", id |-> "i1", setIdx |-> 0, chain |-> 2],
+                   [d |-> "d1", id |-> "i1", setIdx |-> 1, chain |-> 2]}
 
 \* Gossiped observations: valid ones by members, plus the byzantine classes of the C01/C03 quantifier.
 GoodObs == {[d |-> d, claimed |-> k, signer |-> k, over |-> d] : d \in Digests, k \in Members \ {Self}}
@@ -97,7 +97,7 @@ SignersAreMembers ==
 
 TypeOK ==
     /\ gs = Nil \/ gs \in SetUniverse
-    /\ DOMAIN agg \subseteq Digests
-    /\ DOMAIN db \subseteq {"i1"}
+    /\ DOMAIN agg \subseteq AllDigests
+    /\ DOMAIN db \subseteq {"i1", "ie"}
     /\ \A d \in DOMAIN agg : agg[d].retry <= RetryBudget
 =============================================================================
